@@ -36,3 +36,30 @@ CHECKS.update({
  "C19": _c("Regex language equality on every list of <= 3 equal-length sequences over {C,A,S,-}, consensus, seqlogos counts, rankfrequency Line2D data for every vector/flag combination, label colours under every shuffle permutation (RNG seam), density_scatter multiplicities, similarity_clustermap linkage/cluster/heat-map matrix in dendrogram order; artists read back headless.", _N + " Pixels are not inspected.", "bounded exhaustive input enumeration + exhaustive enumeration of shuffle permutations; artist data read back"),
  "C20": _c("92-operation alphabet covering every public function; reference = each operation alone from the pristine import state (cross-checked with fresh interpreters); every single operation, ordered pairs (quick: those involving a stateful/raising operation; thorough: all 8464), triples over stateful operations and a BFS over canonical module states (globals, __defaults__, class attributes) with argument snapshots and result comparison at every step.", _N + " Third-party hidden state only observable through results.", "explicit-state BFS over canonical module states + exhaustive no-dedup enumeration of call histories (pairs/triples), each replayed on a process forked from the pristine import state"),
 })
+
+# ---- additions after the seeded-change campaign (spaces added to the drivers)
+_ADD = {
+ "C01": " Also: the same search through pandas Series with permuted/shifted labels and NumPy arrays; size-boundary families of 257, 1025 and 65560 strings; universes over multi-byte letters.",
+ "C02": " Also: negative integer cells (colliding hashes), the gap_token option, the very same object as both samples.",
+ "C03": " Also: the very same list object as both collections, progress=True, per-look-up max_edits in LookupDB histories; index state changes are explored, only answers are judged.",
+ "C04": " Also: size-boundary families of 255..2049 (thorough 65560) strings and every ordered pair of equal-length 4-letter strings as a 2-element collection.",
+ "C05": " Also: default bins on families with distances of exactly 22..26, the same object as both collections.",
+ "C06": " Also: a magnitude boundary family (counts at 2^8, 55108/9, 2^16, 2^21, 3e6, 2^31-1) comparing the integer path with the exact Fraction path, and variable-width string labels in the two-sample form.",
+ "C07": " Also: equal-length neighbours of 127..300 residues mixed with short strings, same-object two-collection form.",
+ "C08": " Also: all metric objects constructed before any is used.",
+ "C09": " Also: caller columns named CDR1A/CDR2A/CDR1B/CDR2B, CDR3s of 24..80 residues, the same table object on both sides.",
+ "C10": " Also: callables returning non-integer distances under every output type, kdtree max_returns (asymmetric results) in matrix form.",
+ "C11": " Also: sequences of 127..256 residues x compression, max_returns with a callable that does not rank like Levenshtein x compression.",
+ "C12": " Also: mixed-length references for nndist_hamming, hub sequences with more than 255 distance-1 partners.",
+ "C13": " Also: ndarray group_weights (value and purity).",
+ "C14": " Also: library function objects as custom_distance, look-up histories with changing distance functions on live index objects, tcrdist_kwargs call sequences.",
+ "C15": " Also: repeated node labels, linkage_kws={}.",
+ "C16": " Also: a magnitude boundary family for f1/f2 as int64 arrays.",
+ "C17": " Also: tables with duplicated index labels, count vectors with 255..300 (thorough 65537) categories.",
+ "C18": " Also: newline and non-ASCII letters, CDR3 cells ending in C, the same text in a TR and an MHC column.",
+ "C19": " Also: zeros in count vectors, half-integer and negative scatter grids, rows whose residues can shift across the chain boundary.",
+ "C20": " Also: five long-lived fixtures (metrics, SymdelDB, LookupDB) that exist before every history; 111 operations.",
+}
+for _k, _v in _ADD.items():
+    CHECKS[_k]["text"] = CHECKS[_k]["text"] + _v
+CHECKS["C20"]["text"] = CHECKS["C20"]["text"].replace("92-operation alphabet", "111-operation alphabet").replace("all 8464", "all 12321")
